@@ -207,9 +207,15 @@ def check_c17(tier: str) -> int:
                     ck.violation("client did not recover", {"kind": "recovery", "gen": gen, "trigger": {"class": "no-reconnect"},
                                                           "before_case": s.hex()})
                     break
-                rig.feed([s])
+                # every third input is followed by the console's close in the same pass (data and end-of-stream arrive
+                # together): what was complete is still delivered, and the client reconnects as after any close
+                eof_now = ck.evaluations % 3 == 0
+                rig.feed([s], then_eof=eof_now)
                 hdrs, msgs, reset, unh = rig.take()
-                replay = {"gen": gen, "class": cls, "stream": s.hex(),
+                if eof_now:
+                    dist[f"at{gen}_closed_right_behind_the_input"] += 1
+                    reset = not parse_model(mr)[1]          # the reset that follows is the console's doing
+                replay = {"gen": gen, "class": cls, "stream": s.hex(), "console_closes_right_behind_it": eof_now,
                           "replay_cmd": f"cd /verif && ./check C17 --replay-stream {gen} {s.hex()}"}
                 if unh:
                     ck.violation("an exception escaped the receive task",
